@@ -220,6 +220,7 @@ class Cid(object):
         assert len(row_data) >= 2
 
         name, value = row_data[:2]
+        name = name.strip()
         lower_name = name.lower()
         self._location.advance_cell()
         if name == "":
@@ -236,11 +237,10 @@ class Cid(object):
                 "data format already is %s and must be set only once" % _compat.text_repr(self._data_format.format),
                 self._location,
             )
-        lower_value = value.lower()
         if self._data_format is None:
-            self._data_format = data.DataFormat(lower_value, self._location)
+            self._data_format = data.DataFormat(value.strip().lower(), self._location)
         else:
-            self._data_format.set_property(name.lower(), value, self._location)
+            self._data_format.set_property(lower_name, value, self._location)
 
     def read(self, cid_path, rows):
         """
@@ -509,7 +509,7 @@ class Cid(object):
         while (len(items) >= 2) and (items[1].strip() == ""):
             del items[1]
 
-        check_description, check_type, check_rule = (items + 3 * [""])[:3]
+        check_description, check_type, check_rule = [item.strip() for item in (items + 3 * [""])[:3]]
         self._location.advance_cell()
         if check_description == "":
             raise errors.InterfaceError("check description must be specified", self._location)
